@@ -83,10 +83,26 @@ def slice_obligations(ck):
             ck._undecided(o, lambda: native_first(ck))
             continue
         i1 = [c for c in log if c[0] == "interp1d"]
-        ok = (len(i1) == 1 and i1[0][1] is axes[k] and i1[0][2] is data and i1[0][3] == k and not i1[0][4] and isinstance(made.get("data"), Arr)
+        def effective(kw):
+            """interp1d options that leave it the default linear, range-checked interpolant (left implicit or spelled out; copy / assume_sorted do not change values)"""
+            kw = dict(kw)
+            kind = kw.pop("kind", "linear")
+            be = kw.pop("bounds_error", None)
+            fv = kw.pop("fill_value", None)
+            kw.pop("copy", None)
+            kw.pop("assume_sorted", None)
+            nan_fill = fv is None or (isinstance(fv, float) and fv != fv)
+            return kind == "linear" and (be is None or be is True) and nan_fill and not kw
+
+        ok = (len(i1) == 1 and i1[0][1] is axes[k] and i1[0][2] is data and i1[0][3] == k and effective(i1[0][4]) and isinstance(made.get("data"), Arr)
               and made["data"].name == "INTERP(data along %d at %s)" % (k, v) and made["axes"] == [a for j, a in enumerate(axes) if j != k] and made["names"] == [n for j, n in enumerate(names) if j != k]
               and not [c for c in log if c[0] == "astype"] and made["extra"] == ((), {}))
-        ck.direct("%s/post%s" % (qn, tag), ok, "post", "symbolic execution (call log)", note=str([(c[0],) + tuple(getattr(x, "name", x) for x in c[1:4]) for c in log])[:300],
+        verdict = ok
+        if not ok:
+            # an unrecognised call pattern is a failure only if the real function fails the native slice design
+            nat = native_first(ck)
+            verdict = False if nat.get("violated") else None
+        ck.direct("%s/post%s" % (qn, tag), verdict, "post", "symbolic execution (call log)", note=str([(c[0],) + tuple(getattr(x, "name", x) for x in c[1:4]) for c in log])[:300],
                   clause="the slice is interp1d(axis values, data, that axis)(value) -- unmodified (no cast) -- with the remaining axes and names in order: exact at nodes, linear blend of the two neighbouring sub-grids in between (scipy contract)",
                   replay_out=None if ok else native_first(ck))
 
